@@ -19,6 +19,8 @@ func TestVerif(t *testing.T) {
 		h = c16Harness{}
 	case "C14":
 		h = c14Harness{}
+	case "C10":
+		h = c10Harness{}
 	default:
 		t.Fatalf("unknown property %s for package cmd/thruserv", e.Prop)
 	}
